@@ -79,6 +79,12 @@ func c03Scenarios(tier string) []*Scenario {
 			add(tr, "", RPC{Kind: "unary", Client: []string{"I"}, Handler: h})
 			add(tr, "cancel", RPC{Kind: "unary", Client: []string{"I"}, Handler: h})
 		}
+		// a second handler goroutine sets headers while the first message is being sent: if it was
+		// told nil, the pairs reach the caller; otherwise it was refused
+		for _, ret := range []string{"ret:ok", "ret:st:5"} {
+			add(tr, "", RPC{Kind: "bd", Client: []string{"S0", "C", "H", "R*", "T"}, Handler: []string{"r*", "h:a", "go", "s0", "join", ret}, Handler2: []string{"h:b"}})
+			add(tr, "", RPC{Kind: "ss", Client: []string{"S0", "C", "R*", "H"}, Handler: []string{"r", "go", "s0", "s1", "join", ret}, Handler2: []string{"h:b", "t:c"}})
+		}
 		// two goroutines of one handler set metadata on the same call at once: nothing either of them
 		// set (and was told succeeded) may be lost
 		for _, pair := range [][2][]string{
@@ -105,11 +111,30 @@ func c03Oracle(sc *Scenario, rec *Rec, s *mc.Sched) []mc.Violation {
 	k := 0
 	script := cat(rpc.Handler, rpc.Handler2)
 	if len(rpc.Handler2) > 0 {
-		// concurrent setters (all before anything is sent): the order of the results is not fixed, each must succeed
 		script = nil
-		for _, r := range rr.SrvHdrRes {
-			if !strings.HasSuffix(r, "=nil") && sc.Cancel == "" {
-				add("header-refused", r+" before the headers were sent")
+		racing := false // does the second goroutine run while the first one sends?
+		for _, op := range rpc.Handler {
+			if op == "join" {
+				break
+			}
+			if len(op) > 1 && op[0] == 's' && op[1] >= '0' && op[1] <= '9' {
+				racing = true
+			}
+		}
+		if racing {
+			// what must arrive is what the handler was told had been accepted
+			ref.HdrKeys = nil
+			for _, r := range rr.SrvHdrRes {
+				if (strings.HasPrefix(r, "h:") || strings.HasPrefix(r, "H:")) && strings.HasSuffix(r, "=nil") {
+					ref.HdrKeys = append(ref.HdrKeys, r[2:strings.Index(r, "=")])
+				}
+			}
+		} else {
+			// concurrent setters (all before anything is sent): the order of the results is not fixed, each must succeed
+			for _, r := range rr.SrvHdrRes {
+				if !strings.HasSuffix(r, "=nil") && sc.Cancel == "" {
+					add("header-refused", r+" before the headers were sent")
+				}
 			}
 		}
 	}
